@@ -129,13 +129,33 @@ def run(ctx):
         for ev in d_.split(" ; "):
             if ev.startswith("e Bitcasts"):
                 seen_bitcasts.add(ev.split(" : ")[0])
-    backend = None
+    # ---- backend half (T): the expression each anchored backend emits for every reachable Bitcast, scraped from the
+    # generators' CURRENT output, translated into Scalar/Generated.v and decided for all inputs by the verified
+    # normaliser (lib/scalar.py).  False = refuted with a witness input -> violation (known keys: the sign-extending
+    # widenings recorded in known-findings.txt); None = not expressible in the model: allowed only for the keys in
+    # corpus/C04-unmodelled.txt, anything new there means "no longer shown to hold".
+    backend_rows = []
     try:
         scalar = importlib.import_module("scalar")
-        if hasattr(scalar, "backend_casts_leg"):
-            backend = scalar.backend_casts_leg(ctx)
+        backend_rows = scalar.backend_casts_leg(ctx)
     except ModuleNotFoundError:
-        ctx.notes.append("backend half (lib/scalar.backend_casts_leg) not present in this tree: C04 is decided for the shared generator only")
+        ctx.tie_broken("tie", "backend half missing: lib/scalar.py not found")
+    unmodelled_ok = set()
+    up = os.path.join(vf.ROOT, "corpus", "C04-unmodelled.txt")
+    if os.path.exists(up):
+        unmodelled_ok = {l.strip() for l in open(up) if l.strip() and not l.startswith("#")}
+    nb_proved = 0
+    for (lang, cast, ok, det) in backend_rows:
+        key = "%s:%s" % (lang, cast)
+        if ok is True:
+            nb_proved += 1
+        elif ok is False:
+            ctx.violation(key, "backend %s emits for Bitcast %s an expression that differs from the canonical conversion: %s" % (lang, cast, det[:400]),
+                          {"backend": lang, "cast": cast, "detail": det})
+        elif key not in unmodelled_ok:
+            ctx.tie_broken("tie", "backend cast %s is no longer decided by the normaliser (not in corpus/C04-unmodelled.txt): %s" % (key, det[:300]))
+    if backend_rows and len({r[0] for r in backend_rows}) < 3:
+        ctx.tie_broken("tie", "backend casts scraped for %s only (expected rust, c, moonbit)" % sorted({r[0] for r in backend_rows}))
     ctx.coverage.update({
         "evaluations": len(pairs) + nsem + res["n"],
         "distinct_nontrivial": len([p for p, r in zip(pairs, real) if r not in ("None", "PANIC")]) + len(seen_bitcasts),
@@ -144,6 +164,9 @@ def run(ctx):
         "samples": samples,
         "traces_validated_against_impl": len(pairs) + res["n"],
         "model_mismatches": len(mism) + len(res["mismatches"]),
+        "backend_cast_classes": {"total": len(backend_rows), "proved_for_all_inputs": nb_proved,
+                                 "refuted": [r[0] + ":" + r[1] for r in backend_rows if r[2] is False],
+                                 "unmodelled": [r[0] + ":" + r[1] for r in backend_rows if r[2] is None]},
         "distribution": {"cast_pairs": len(pairs), "real_panics_on_unrelated_pairs": real.count("PANIC"),
                          "semantic_evaluations": nsem, "join_corpus_variants": len(texts), "generator_dumps_compared": res["n"],
                          "distinct_Bitcasts_instructions_seen": len(seen_bitcasts)},
@@ -152,6 +175,15 @@ def run(ctx):
 
 def replay(ctx, path):
     obj = json.load(open(path))["replay"]
+    if "backend" in obj:
+        scalar = importlib.import_module("scalar")
+        rows = scalar.backend_casts_leg(ctx)
+        for (lang, cast, ok, det) in rows:
+            if lang == obj["backend"] and cast == obj["cast"]:
+                print(lang, cast, ok, det)
+                return 0 if ok is True else 1
+        print("cast site no longer emitted")
+        return 1
     ok1, exe_c, log1 = vf.cargo_build("corelib")
     a, j = obj["from"], obj.get("to") or obj.get("slot")
     up, down = vf.run_filter([exe_c, "cast"], ["%s %s" % (a, j), "%s %s" % (j, a)], shards=1)
